@@ -126,12 +126,23 @@ def run(F, rep):
                 conds = [(fmt(c[0]), cond_bool(c[1], c[2])) for c in dominating_conds(f, bi, ex) if cond_bool(c[1], c[2]) is not None]
                 guarded = any(("placeholder" in c or "raw_placeholder_written" in c) for c, v2 in conds)
                 # must be immediately followed by a separator push
-                nxt = f.blocks[t["t"]]["term"] if t["t"] is not None else None
-                foll = False
-                for b2, t2, v2, item2 in byte_pushes(f):
-                    if b2 == t["t"] or (t["t"] is not None and cfg_of(f).dominates(t["t"], b2) and v2 == T["separator"] and cfg_of(f).reachable_from(t["t"]) and
-                                        len([x for x in cfg_of(f).succ[t["t"]]]) >= 0 and b2 in _straight_line(f, t["t"])):
-                        foll = foll or v2 == T["separator"]
+                # on every path the next byte written after the placeholder is the separator
+                pushes = {b2: v2 for b2, t2, v2, item2 in byte_pushes(f)}
+                g2 = cfg_of(f)
+                foll = t["t"] is not None
+                seen2, st = set(), [t["t"]] if t["t"] is not None else []
+                while st and foll:
+                    b2 = st.pop()
+                    if b2 in seen2:
+                        continue
+                    seen2.add(b2)
+                    if b2 in pushes:
+                        if pushes[b2] != T["separator"]:
+                            foll = False
+                        continue
+                    if f.blocks[b2]["term"]["k"] == "return" or b2 == bi:
+                        foll = False
+                    st.extend(s2 for s2 in g2.succ[b2] if not f.blocks[s2]["cleanup"])
                 rep.ob("C02-PLACEHOLDER", "raw placeholder 0x7f in %s is written only under the not-yet-written guard and followed by a separator" % f.key.split("::", 1)[-1],
                        guarded and foll, detail="guards: %s; followed by separator: %s" % (conds[-3:], foll), site=site_of(f, t), key="C02-PLACEHOLDER | %s" % f.key)
     rep.floor("C02-SEP", nsep, 6, "separator pushes in pack builders (3 builders x placeholder+delta)")
